@@ -161,13 +161,15 @@ class PoolWorld(WorldBase):
         nr = ch.randint(2, 6)
         op = {'op': 'thread_pool', 'ctype': 'series', 'iface': 'iter_element',
               'spec': {'name': 'se', 'index': ROWL[:nr], 'hier': False, 'values': gen_cells(ch, nr, 1, ch.choice(['int', 'str']))},
-              'func': ch.choice(['build_and_probe', 'probe_shared', 'probe_shared', 'probe_bus', 'sample_in_task']), 'mp': ch.choice([None, 1, 2]),
-              'k': ch.randint(2, 4), 'p': ch.choice([0.02, 0.05, 0.1, 0.3]),
+              'func': ch.choice(['build_and_probe', 'probe_shared', 'probe_shared', 'probe_bus', 'probe_bus_direct', 'sample_in_task', 'alloc_probe']), 'mp': ch.choice([None, None, 1, 2]),
+              'k': ch.randint(2, 4), 'p': ch.choice([0.02, 0.05, 0.1, 0.3]), 'hw': ch.choice([1, 1, 8, 25]), 'stall': ch.choice([0, 3, 3, 8, 20]),
               'grow_ih': ch.randint(0, 3), 'grow_ix': ch.randint(0, 3), 'n': ch.randint(1, 4)}
+        if op['func'] == 'alloc_probe':
+            op['sizes'] = ch.sample([2, 3, 5, 7, 9, 12, 17, 33], ch.randint(2, 4))
         if ch.chance(0.25):
             n = ch.randint(2, 5)
             return {'op': 'thread_batch', 'frames': [gen_frame(ch, 'b%d' % i, nr=ch.randint(1, 4), nc=ch.randint(1, 3), numeric=True, hier=False) for i in range(n)],
-                    'k': ch.randint(2, 4), 'p': ch.choice([0.02, 0.05, 0.1, 0.3]), 'grow_ih': ch.randint(0, 3), 'grow_ix': ch.randint(0, 3), 'n': ch.randint(1, 4),
+                    'k': ch.randint(2, 4), 'p': ch.choice([0.02, 0.05, 0.1, 0.3]), 'hw': ch.choice([1, 1, 8, 25]), 'stall': ch.choice([0, 3, 3, 8, 20]), 'grow_ih': ch.randint(0, 3), 'grow_ix': ch.randint(0, 3), 'n': ch.randint(1, 4),
                     'shared': ch.chance(0.6), 'export': ch.choice(['to_frame', 'items', 'to_bus']), 'via': ch.choice(['apply', 'apply_items', 'attr', 'sample'])}
         if ch.chance(0.4):
             op['ctype'] = 'frame'
@@ -445,9 +447,11 @@ class PoolWorld(WorldBase):
         def fn_for():
             if op['func'] == 'build_and_probe':
                 return functools.partial(pf.build_and_probe, n=op.get('n', 3))
+            if op['func'] == 'alloc_probe':
+                return functools.partial(pf.alloc_probe, sizes=tuple(op.get('sizes', (3, 9, 5))))
             if op['func'] == 'sample_in_task':
                 return functools.partial(pf.sample_in_task, n=op.get('n', 2))
-            if op['func'] == 'probe_bus':
+            if op['func'] in ('probe_bus', 'probe_bus_direct'):
                 # one lazily loaded, possibly LRU-bounded Bus shared by all tasks
                 if self.dir is None:
                     self.dir = tempfile.mkdtemp(prefix='sfpool_', dir='/dev/shm' if os.path.isdir('/dev/shm') else None)
@@ -456,13 +460,13 @@ class PoolWorld(WorldBase):
                 if not os.path.exists(fp):
                     sf.Bus.from_frames(frames).to_zip_pickle(fp)
                 bus = sf.Bus.from_zip_pickle(fp, max_persist=op.get('mp'))
-                return functools.partial(pf.probe_bus, bus=bus, labels=tuple(f.name for f in frames))
+                return functools.partial(getattr(pf, op['func']), bus=bus, labels=tuple(f.name for f in frames))
             return functools.partial(pf.probe_shared, shared=self._shared(op))
         self.reset_globals()
         seq = call(lambda: self._node(c, op).apply(fn_for()))
         self.reset_globals()
         prefixes = (os.path.dirname(os.path.abspath(static_frame.__file__)) + os.sep, os.path.abspath(pf.__file__))
-        baton = Baton(dec_, op.get('p', 0.05), self.stats, prefixes)
+        baton = Baton(dec_, op.get('p', 0.05), self.stats, prefixes, hot_weight=op.get('hw', 1), stall_gap=op.get('stall', 0))
         sim = sx.PoolSim(dec_, self.stats, p_early=0.0, baton=baton)
         sx.CURRENT['sim'] = sim
         from sim.baton import patch_locks, unpatch_locks
@@ -476,6 +480,8 @@ class PoolWorld(WorldBase):
             self.interleavings.add(baton.trace_sig)
             self.stats['pool:thread-switches'] += baton.switches
             self.stats['pool:traced-lines'] += baton.lines
+            self.stats['pool:traced-lines-in-state-writing-functions'] += baton.hot_lines
+            self.stats['fault:thread-stalled-inside-state-writing-function'] += baton.stalls
             if baton.switches:
                 self.probe('pre-empted-inside-task')
         if isinstance(par[1], (HarnessError, Violation)):
@@ -521,7 +527,7 @@ class PoolWorld(WorldBase):
         seq = call(run, False)
         self.reset_globals()
         prefixes = (os.path.dirname(os.path.abspath(static_frame.__file__)) + os.sep, os.path.abspath(pf.__file__))
-        baton = Baton(dec_, op.get('p', 0.05), self.stats, prefixes)
+        baton = Baton(dec_, op.get('p', 0.05), self.stats, prefixes, hot_weight=op.get('hw', 1), stall_gap=op.get('stall', 0))
         sim = sx.PoolSim(dec_, self.stats, p_early=0.0, baton=baton)
         sx.CURRENT['sim'] = sim
         undo = patch_locks(baton)
@@ -534,6 +540,8 @@ class PoolWorld(WorldBase):
             self.interleavings.add(baton.trace_sig)
             self.stats['pool:thread-switches'] += baton.switches
             self.stats['pool:traced-lines'] += baton.lines
+            self.stats['pool:traced-lines-in-state-writing-functions'] += baton.hot_lines
+            self.stats['fault:thread-stalled-inside-state-writing-function'] += baton.stalls
             if baton.switches:
                 self.probe('pre-empted-inside-task')
         if isinstance(par[1], (HarnessError, Violation)):
